@@ -1,0 +1,30 @@
+//go:build verif
+
+package service
+
+// Verification hooks (build tag "verif"). They are nil unless a harness installs them.
+// VerifTrace receives linearization-point events emitted while the lock protecting the
+// state is held. VerifGate is called at scheduling points and may block.
+var (
+	VerifTrace func(ev string, a, b int64)
+	VerifGate  func(label string)
+)
+
+func vtrace(ev string, a, b int64) {
+	if f := VerifTrace; f != nil {
+		f(ev, a, b)
+	}
+}
+
+func vgate(label string) {
+	if f := VerifGate; f != nil {
+		f(label)
+	}
+}
+
+func vbool(b bool) int64 {
+	if b {
+		return 1
+	}
+	return 0
+}
